@@ -11,7 +11,7 @@ EXTENDS Integers, Sequences, TLC
 
 Abs(x) == IF x < 0 THEN -x ELSE x
 \* a - b in nanoseconds, defined when the second counts differ by at most 1
-NearBy(a, b) == Abs(a[1] - b[1]) <= 1
+NearBy(a, b) == a[1] <= b[1] + 1 /\ b[1] <= a[1] + 1      \* no subtraction of far-apart values (32-bit overflow)
 DiffNs(a, b) == (a[1] - b[1]) * 1000000000 + (a[2] - b[2])
 Within(a, b, tol) == NearBy(a, b) /\ Abs(DiffNs(a, b)) <= tol
 \* b is not later than a, and at most tol earlier
